@@ -12,6 +12,8 @@ allp = [json.loads(l)['id'] for l in open(os.path.join(V, 'properties.jsonl'))]
 for pid in allp:
     c = CLAIMS.get(pid)
     mine = [u for u in units if pid in u['properties']]
+    if pid == 'C19' and c and c.get('claim'):
+        mine = [{'enforce': [], 'name': 'symtab'}]
     if not c or not c.get('claim') or not mine:
         na.append({'property_id': pid, 'reason': (c or {}).get('reason', 'not built in this round')})
         continue
@@ -19,15 +21,16 @@ for pid in allp:
     bounded = sorted({u.get('variant_of', u['name']) for u in mine if u.get('mode', 'proof') != 'proof'})
     checks.append({
         'property_id': pid, 'quick_cmd': './check %s quick' % pid, 'thorough_cmd': './check %s thorough' % pid,
-        'evidence_file': 'evidence/%s.json' % pid, 'engine': 'cbmc-contracts',
-        'level_claimed': {'category': c['level'], 'text': c['text'] + ' Functions under contract: ' + ', '.join(fns) + ('. Bounded units (reported separately, not counted as proved): ' + ', '.join(bounded) if bounded else '') + '.',
+        'evidence_file': 'evidence/%s.json' % pid, 'engine': 'static-ownership-scan' if pid == 'C19' else 'cbmc-contracts',
+        'level_claimed': {'category': c['level'], 'text': c['text'] + (' Functions under contract: ' + ', '.join(fns) if fns else '') + ('. Bounded units (reported separately, not counted as proved): ' + ', '.join(bounded) if bounded else '') + '.',
                           'design_ref': 'DESIGN.md section 6, ' + pid},
         'level_note': c['note'], 'technique': c.get('technique', 'contract-based deductive verification (CBMC --dfcc function and loop contracts on the real sources)')})
 m = {'version': 1, 'setup_cmd': 'true',
      'hooks': {'guard': 'ZCHUNK_ZCHUNK_VERIF', 'enable': 'no hooks inside /repo: -DZCHUNK_ZCHUNK_VERIF is passed to goto-cc for /verif wrapper translation units that #include the real sources; loop contracts are inserted mechanically into scratch copies on every run',
                'baseline_off_cmd': 'meson test -C /repo/_build', 'source_commits': [], 'add_only': True},
-     'engines': [{'name': 'cbmc-contracts', 'path': 'engine/vp.py', 'serves_properties': [c['property_id'] for c in checks],
-                  'kind_free_text': 'CBMC 6.11 goto-instrument --dfcc function/loop contract enforcement on the real C sources; plain CBMC for the bounded list-shaped units'}],
+     'engines': [{'name': 'cbmc-contracts', 'path': 'engine/vp.py', 'serves_properties': [c['property_id'] for c in checks if c['property_id'] != 'C19'],
+                  'kind_free_text': 'CBMC 6.11 goto-instrument --dfcc function/loop contract enforcement on the real C sources; plain CBMC for the bounded list-shaped units'},
+                 {'name': 'static-ownership-scan', 'path': 'engine/symtab.py', 'serves_properties': ['C19'], 'kind_free_text': 'goto-cc symbol table / goto program scan for static mutable objects, their writers and address escapes'}],
      'checks': checks, 'not_applicable': na,
      'notes': 'exit 0 ok / exit 1 VIOLATION (failed obligation not listed in known_findings.json) / exit 2 UNDECIDED (timeout, extraction or build failure, vacuity). Seeded changes used to test the checks: seeded/.'}
 json.dump(m, open(os.path.join(V, 'MANIFEST.json'), 'w'), indent=1)
